@@ -29,7 +29,10 @@ func initLocation() {
 		"==",
 		func(_ *Thread, args []value.Value) (value.Value, value.Value) {
 			self := (*value.Location)(args[0].Pointer())
-			other := (*value.Location)(args[1].Pointer())
+			other, ok := args[1].SafeAsReference().(*value.Location)
+			if !ok {
+				return value.False.ToValue(), value.Undefined
+			}
 			return value.BoolVal(self.Equal(other)), value.Undefined
 		},
 		DefWithParameters(1),
